@@ -16,7 +16,9 @@ git checkout -q -- .
 WITHOUT=$(go test -vet=off -count=1 -run 'Demo' ./$PKG 2>&1 | tail -1)
 echo "build: [$BUILD]"; echo "demo with change:    $WITH"; echo "demo without change: $WITHOUT"; echo "existing pkg tests with change: $EXIST"
 cd /repo && git apply $D/patch.diff || { echo "PATCH DOES NOT APPLY TO /repo"; exit 1; }
-cd /verif && CHK=$(checks/run.sh $PROP quick 2>&1 | grep -v "^NOTE" | cut -c1-260 | tail -4); RC=$?
+mkdir -p /tmp/seedlogs
+cd /verif && checks/run.sh $PROP quick -noevidence > /tmp/seedlogs/$ID.log 2>&1; RC=$?
+CHK=$( (grep "^VIOLATION" /tmp/seedlogs/$ID.log | head -3; grep -v "^NOTE\|^VIOLATION\|^KNOWN\|^cover" /tmp/seedlogs/$ID.log | tail -2) | cut -c1-260)
 cd /repo && git checkout -q -- . && git status --short | head -3
 echo "check on seeded tree:"; echo "$CHK"
 python3 - "$ID" "$PROP" "$WITH" "$WITHOUT" "$EXIST" "$CHK" <<'PY'
@@ -24,7 +26,7 @@ import json,sys,os
 i,prop,w,wo,ex,chk=sys.argv[1:7]
 d=f'/verif/seeded/{i}'
 m={"seed":i,"property":prop,"demo_with_change":w,"demo_without_change":wo,"existing_tests_with_change":ex,
-   "check_cmd":f"checks/run.sh {prop} quick","check_output_tail":chk.splitlines()[-4:],"detected":("VIOLATION" in chk)}
+   "check_cmd":f"checks/run.sh {prop} quick","check_output_tail":chk.splitlines()[-5:],"detected":("VIOLATION" in chk)}
 old={}
 if os.path.exists(d+'/meta.json'): old=json.load(open(d+'/meta.json'))
 old.update(m); json.dump(old,open(d+'/meta.json','w'),indent=1)
